@@ -1,6 +1,6 @@
 (* C12 — send never silently discards a message. *)
 From Coq Require Import List NArith ZArith String.
-From AMS Require Import Models CodecFacts GatewayFacts GatewayInv GatewaySteps.
+From AMS Require Import Models CodecFacts GatewayFacts GatewayInv GatewaySteps GatewaySbuf.
 Import ListNotations.
 Local Open Scope Z_scope.
 
@@ -35,6 +35,49 @@ Proof.
   destruct (send_preserves vlt m buffered s Hi Hk) as [H1 [_ [H2 _]]]. exact (conj H1 H2).
 Qed.
 Print Assumptions C12_send_library_errors_only.
+
+(* "held" means delivered later, end to end: a send accepted without a write is held
+   under its key, stays held through any history (receives, sends, reconnects, any fault
+   streams) that has no wake of its node and no later set command for the same
+   (node, child, type), and the line of that very message is written at the next
+   fault-free wake of its node, after which it is gone from the buffer *)
+Theorem C12_held_is_delivered :
+  forall bat vlt now w faults m buffered ops line mw n bw f2,
+    Inv vlt w -> wf_msg m -> (m_cmd m = 3 -> buffered = false) ->
+    let r := send_op w faults m buffered in
+    snd (fst r) = Done -> snd r = [] ->
+    let w1 := fst (fst r) in
+    Forall op_ok ops -> kept bat vlt now (msg_key m) w1 ops ->
+    let w2 := run_ops bat vlt now w1 ops in
+    decode (proto_of w2) line = DecOk mw -> m_cmd mw = 3 ->
+    wake_body (w_proto w2) (m_type mw) = Some bw ->
+    dget Z.eqb (w_nodes w2) (m_node mw) = Some n ->
+    (bw = BHeartbeat20 -> exists hb, py_int (m_payload mw) = Some hb) ->
+    Forall (fun x => x = false) f2 -> m_node mw = m_node m ->
+    let r2 := recv bat vlt now w2 f2 line in
+    In {| we_line := encode m; we_ok := true; we_msg := m |} (snd r2)
+    /\ dget key_eqb (w_set (fst (fst r2))) (msg_key m) = None
+    /\ snd (fst r2) = Yield mw.
+Proof. exact held_is_delivered. Qed.
+Print Assumptions C12_held_is_delivered.
+
+(* its hypotheses are met: a command held for sleeping node 1, then a send to another
+   child, a line of another node and a reconnect, then node 1's pre-sleep notification *)
+Example C12_held_example :
+  let bat := fun _ : list N => @None Z in
+  let vlt := vlt_full (fun _ _ => None) in
+  let w0 := fst (fst (recv bat vlt 0 (init_world true) [] (lit "0;255;3;0;2;2.2"))) in
+  let w := w_put_node (w_put_node w0 (mk_node 1 17 (lit "2.2") [] [] 0 0 false true))
+                      (mk_node 2 17 (lit "2.2") [] [] 0 0 false false) in
+  let m := mk_msg 1 0 1 0 2 (lit "a") in
+  let r := send_op w [] m true in
+  let ops := [OSend (mk_msg 1 1 1 0 2 (lit "b")) true []; ORecv (lit "2;255;3;0;22;0") []; OReconnect] in
+  let w2 := run_ops bat vlt 0 (fst (fst r)) ops in
+  snd (fst r) = Done /\ snd r = []
+  /\ dget key_eqb (w_set w2) (msg_key m) = Some m
+  /\ map we_line (snd (recv bat vlt 0 w2 [] (lit "1;255;3;0;32;500")))
+     = [lit "1;0;1;0;2;a" ++ [10%N]; lit "1;1;1;0;2;b" ++ [10%N]].
+Proof. vm_compute. repeat split. Qed.
 
 (* which outgoing handlers exist, from the generated tables *)
 Theorem C12_tables : forallb outgoing_ok protocols = true.
